@@ -35,6 +35,7 @@ def run(ctx, rep):
     r3(ctx, prog, evalr, rep)
     r4(ctx, prog, evalr, rep)
     r5(ctx, prog, ev, evalr, rep)
+    r6(ctx, prog, evalr, rep)
     if ctx.tier == "thorough":
         from vflib import witness
         witness.report(rep, "C15-W", ['W4'], "witness: the engine instantiates at a second Queryable implementor defined outside the crate")
@@ -311,3 +312,48 @@ def _paired(prog, ev, body, f64call):
                 return False, "fallback consults as_i64 of `%s`, not of `%s`" % (a, target_arg)
         return False, "the alternative of or_else/or never calls as_i64"
     return False, "as_f64(%s) has no or_else/or fallback to as_i64: a view that answers integers only through as_i64 is mis-read" % target_arg
+
+
+# ------------------------------------------------------------------------------------------- R6
+CORE_ACCESSORS = {"get", "as_array", "as_object", "as_str", "as_i64", "as_f64", "as_bool", "null", "extension_custom"}
+
+
+def r6(ctx, prog, evalr, rep):
+    rep.rule("C15-R6", "the engine observes a document only through the trait's core accessors and uses their answers as given: from "
+             "the exported query entry points down, the only Queryable methods called are get / as_* / null / extension_custom "
+             "(never an optional, defaulted hook such as reference(), whose default differs from what implementors override), "
+             "and nothing re-orders or de-duplicates what as_array()/as_object() return (member order is the implementor's answer)",
+             floor=2)
+    QT = "crate::query::queryable::Queryable::"
+    entry = [p for p in ("crate::query::js_path", "crate::query::js_path_process", "crate::query::js_path_vals", "crate::query::js_path_path") if p in prog.bodies]
+    conc = set(prog.concrete_view_bodies())
+    reach, foreign = prog.reach(entry, stop=lambda p: p in conc)
+    seen = {}
+    for name, sites in foreign.items():
+        if name.startswith(QT):
+            seen[name[len(QT):]] = sites
+    # provided (defaulted) trait methods have a body in the crate: they show up in the reach itself
+    for name in reach:
+        if name.startswith(QT) and "::{closure" not in name and name[len(QT):] not in seen:
+            callers = [(b, n) for b in reach for (callee, n) in prog.edges().get(b, []) if callee == name]
+            seen[name[len(QT):]] = callers or [(name, prog.bodies[name]["thir"]["root"])]
+    # unresolved trait calls inside reach that resolve to local impl methods are recorded under the trait path by the driver
+    for m, sites in sorted(seen.items()):
+        if m in CORE_ACCESSORS:
+            continue
+        body, node = sites[0]
+        rep.bad("C15-R6", "%s|Queryable::%s" % (prog.owner_fn(body), m), T.loc(node),
+                "the engine calls `Queryable::%s`, a hook outside the core accessors: implementations that keep the trait's default behave "
+                "differently from those that override it (serde_json::Value does), so one query means different things for different document types" % m)
+    rep.ok("C15-R6", "accessor-census", "-", "Queryable methods called from the entry points: %s" % sorted(seen))
+    hits, n = census.scan_calls(prog, sorted(evalr), census.ORDER_CHANGING)
+    for lab, p, node, name in hits:
+        if lab == "rev":
+            from rules import c02
+            if not c02.carries_nodes(node):
+                continue
+        if lab in ("sort", "dedup", "rev", "reverse", "shuffle", "unordered-collections"):
+            rep.bad("C15-R6", "%s|%s|%s" % (prog.owner_fn(p), lab, name.rsplit("::", 1)[1]), T.loc(node),
+                    "`%s` in `%s`: the engine imposes its own order/multiplicity on what the trait answered (a document type whose "
+                    "as_object() is not name-sorted gets different results from equivalent queries)" % (name, p))
+    rep.ok("C15-R6", "order-census", "-", "%d call sites examined" % n)
